@@ -2,6 +2,7 @@ package core
 
 import (
 	"fmt"
+	"html"
 	"io"
 )
 
@@ -30,6 +31,6 @@ func (c *NavItem) WriteHTMLTo(w io.Writer) (int64, error) {
 		"class": "nav-item",
 	}, NewTag("a", map[string]string{
 		"class": fmt.Sprintf("nav-link %s", active),
-		"href":  c.href,
+		"href":  html.EscapeString(c.href),
 	}, c.content)).WriteHTMLTo(w)
 }
